@@ -79,33 +79,33 @@ Print Assumptions C02_example.
    of them re-opens this property even if no sampled case shows a difference.  Rewritten by tools/pin_shapes.py on a tree on which every check passes. *)
 From Connectome Require BagGen GlueChainGen GlueFactoryGen.
 Theorem C02_mirrored_functions_are_the_pinned_ones :
-  BagGen.shape_connect_bags = "330bc8a991173b73" /\
-  BagGen.shape_normalize_bag = "7cd93bd3cd2ed163" /\
-  BagGen.shape_EdgesBag_freeze = "6e09dc87af0979b4" /\
-  BagGen.shape_EdgesBag_init = "19042133648c6d76" /\
-  GlueChainGen.shape_class_CallableLayer = "c80fc9ed956106f0" /\
-  GlueChainGen.shape_class_Instance = "e7a645f498b26984" /\
-  GlueChainGen.shape_class_Chain = "9d9b18d30947136d" /\
-  GlueChainGen.shape_class_LazyChain = "a1c1f777b7f04bfb" /\
-  GlueChainGen.shape_connect = "32cfcae91c959073" /\
-  GlueFactoryGen.shape_class_GraphFactory = "81497759c0671ad7" /\
-  GlueFactoryGen.shape_class_SourceFactory = "1808b21b3bce3951" /\
-  GlueFactoryGen.shape_class_TransformFactory = "c44de91624ae4321" /\
-  GlueFactoryGen.shape_add_from_mixins = "75970a13392501ac" /\
-  GlueFactoryGen.shape_is_detectable = "01389bb1efb83cb2" /\
-  GlueFactoryGen.shape_items_to_container = "f7b238bfe3e856c6" /\
-  GlueFactoryGen.shape_class_FunctionBase = "2a1e9fd23a29f19d" /\
-  GlueFactoryGen.shape_class_Function = "727356a49c35f2ce" /\
-  GlueFactoryGen.shape_class_FunctionWrapper = "20f303f31715c14d" /\
-  GlueFactoryGen.shape_class_Inverse = "d803d7d513cd3b06" /\
-  GlueFactoryGen.shape_class_Positional = "ff7f4bccfea673aa" /\
-  GlueFactoryGen.shape_class_Impure = "f33a1c51c28660a4" /\
-  GlueFactoryGen.shape_class_APIMeta = "d04e35766e894328" /\
-  GlueFactoryGen.shape_class_HashByValue = "16222fab9891d910" /\
-  GlueFactoryGen.shape_class_CombinedHashByValue = "a5203dcb1319f438" /\
-  GlueFactoryGen.shape_hash_by_value = "8a4ba5e0fdeb3b7c" /\
-  GlueFactoryGen.shape_class_NodeStorage = "6d3e8d03e5bc0ef6" /\
-  GlueFactoryGen.shape_replace_annotation = "1793c6c05b9f2740".
+  BagGen.shape_connect_bags = "330bc8a991173b73"%string /\
+  BagGen.shape_normalize_bag = "7cd93bd3cd2ed163"%string /\
+  BagGen.shape_EdgesBag_freeze = "6e09dc87af0979b4"%string /\
+  BagGen.shape_EdgesBag_init = "19042133648c6d76"%string /\
+  GlueChainGen.shape_class_CallableLayer = "c80fc9ed956106f0"%string /\
+  GlueChainGen.shape_class_Instance = "e7a645f498b26984"%string /\
+  GlueChainGen.shape_class_Chain = "9d9b18d30947136d"%string /\
+  GlueChainGen.shape_class_LazyChain = "a1c1f777b7f04bfb"%string /\
+  GlueChainGen.shape_connect = "32cfcae91c959073"%string /\
+  GlueFactoryGen.shape_class_GraphFactory = "81497759c0671ad7"%string /\
+  GlueFactoryGen.shape_class_SourceFactory = "1808b21b3bce3951"%string /\
+  GlueFactoryGen.shape_class_TransformFactory = "c44de91624ae4321"%string /\
+  GlueFactoryGen.shape_add_from_mixins = "75970a13392501ac"%string /\
+  GlueFactoryGen.shape_is_detectable = "01389bb1efb83cb2"%string /\
+  GlueFactoryGen.shape_items_to_container = "f7b238bfe3e856c6"%string /\
+  GlueFactoryGen.shape_class_FunctionBase = "2a1e9fd23a29f19d"%string /\
+  GlueFactoryGen.shape_class_Function = "727356a49c35f2ce"%string /\
+  GlueFactoryGen.shape_class_FunctionWrapper = "20f303f31715c14d"%string /\
+  GlueFactoryGen.shape_class_Inverse = "d803d7d513cd3b06"%string /\
+  GlueFactoryGen.shape_class_Positional = "ff7f4bccfea673aa"%string /\
+  GlueFactoryGen.shape_class_Impure = "f33a1c51c28660a4"%string /\
+  GlueFactoryGen.shape_class_APIMeta = "d04e35766e894328"%string /\
+  GlueFactoryGen.shape_class_HashByValue = "16222fab9891d910"%string /\
+  GlueFactoryGen.shape_class_CombinedHashByValue = "a5203dcb1319f438"%string /\
+  GlueFactoryGen.shape_hash_by_value = "8a4ba5e0fdeb3b7c"%string /\
+  GlueFactoryGen.shape_class_NodeStorage = "6d3e8d03e5bc0ef6"%string /\
+  GlueFactoryGen.shape_replace_annotation = "1793c6c05b9f2740"%string.
 Proof. repeat split; reflexivity. Qed.
 Print Assumptions C02_mirrored_functions_are_the_pinned_ones.
 (* END PINNED FINGERPRINTS *)
